@@ -22,8 +22,12 @@ pub struct PaddingFactory {
     md5: String,
 }
 
-/// Global padding factory
-static DEFAULT_FACTORY: std::sync::OnceLock<Arc<PaddingFactory>> = std::sync::OnceLock::new();
+/// Global padding factory. It can be replaced any number of times (a server may push its
+/// scheme to every session), so it is a replaceable cell, not a set-once one.
+static DEFAULT_FACTORY: std::sync::RwLock<Option<Arc<PaddingFactory>>> =
+    std::sync::RwLock::new(None);
+/// How many times `update_default` has replaced the default.
+static DEFAULT_GENERATION: std::sync::atomic::AtomicU64 = std::sync::atomic::AtomicU64::new(0);
 
 impl PaddingFactory {
     /// Create a new PaddingFactory from raw scheme bytes
@@ -53,8 +57,13 @@ impl PaddingFactory {
     /// with creating a new factory. This returns a shared singleton instance.
     #[allow(clippy::should_implement_trait)]
     pub fn default() -> Arc<Self> {
+        if let Some(factory) = DEFAULT_FACTORY.read().unwrap().as_ref() {
+            return factory.clone();
+        }
         DEFAULT_FACTORY
-            .get_or_init(|| {
+            .write()
+            .unwrap()
+            .get_or_insert_with(|| {
                 Arc::new(
                     Self::new(DEFAULT_PADDING_SCHEME.as_bytes())
                         .expect("default padding scheme should be valid"),
@@ -66,9 +75,14 @@ impl PaddingFactory {
     /// Update the default padding factory
     pub fn update_default(raw_scheme: &[u8]) -> Result<(), String> {
         let factory = Arc::new(Self::new(raw_scheme)?);
-        DEFAULT_FACTORY
-            .set(factory)
-            .map_err(|_| "failed to update default factory".to_string())
+        *DEFAULT_FACTORY.write().unwrap() = Some(factory);
+        DEFAULT_GENERATION.fetch_add(1, std::sync::atomic::Ordering::SeqCst);
+        Ok(())
+    }
+
+    /// Number of times the default has been replaced through `update_default`
+    pub fn default_generation() -> u64 {
+        DEFAULT_GENERATION.load(std::sync::atomic::Ordering::SeqCst)
     }
 
     /// Get the stop value
